@@ -110,7 +110,7 @@ def run(ctx):
                 if msg is not None and (ctor is None or "PyValueError" not in ctor):
                     ctx.violation("PYW-3", (b.path, "exception type"), "non-positive threshold raises %s, documented: ValueError" % ctor, b.loc())
     # PYW-4
-    roles = common.role_fields(ctx, lib)
+    roles = common.role_fields(ctx, lib, want=("escape",))
     bb = meths.get("py_build")
     rewriter = None
     if bb is None:
@@ -168,7 +168,12 @@ def widths(ctx, lib, rw):
             pat = cv[0] if cv else None
         rep = d.operand(t["args"][2])
         clo = [x for x in local.walk(rep) if x[0] == "agg" and x[1] == "closure"]
-        consumers.append((bi, t, pat, lib.body(clo[0][2]) if clo else None))
+        cb = lib.body(clo[0][2]) if clo else None
+        if cb is None:
+            # a named function used as the replacer
+            fns = [x[2]["path"] for x in local.walk(rep) if x[0] == "const" and isinstance(x[2], dict) and x[2].get("t") == "fn"]
+            cb = lib.body(norm(fns[0])) if fns else None
+        consumers.append((bi, t, pat, cb))
     if not ctx.floor("PYW-2", "escape rewriting passes", len(consumers), 1):
         return
     producer = set(len("%x" % cp) for cp in (0x80, 0xFF, 0x100, 0xFFF, 0x1000, 0xFFFF, 0x10000, 0xFFFFF, 0x100000, 0x10FFFF)) | {4}
@@ -180,7 +185,7 @@ def widths(ctx, lib, rw):
             return
         lo, hi = int(m.group(1)), int(m.group(2) or m.group(1))
         caps = ccp.Sym("caps")
-        leaves = ccp.Machine([lib]).run(cb, [ccp.Sym("env"), caps])
+        leaves = ccp.Machine([lib]).run(cb, [ccp.Sym("env"), caps] if cb.kind == "closure" else [caps])
         for w in range(lo, hi + 1):
             outs = []
             for l in leaves:
@@ -189,9 +194,13 @@ def widths(ctx, lib, rw):
                 feas = True
                 for a, v in l.label:
                     mm = re.match(r"^(Lt|Le|Gt|Ge|Eq|Ne)\((.*len\(.*\)), (\d+)\)$", a)
-                    if mm:
-                        k = int(mm.group(3))
-                        r = {"Lt": w < k, "Le": w <= k, "Gt": w > k, "Ge": w >= k, "Eq": w == k, "Ne": w != k}[mm.group(1)]
+                    m2 = re.match(r"^(Lt|Le|Gt|Ge|Eq|Ne)\((\d+), (.*len\(.*\))\)$", a)
+                    if mm or m2:
+                        if mm:
+                            x, k, op = w, int(mm.group(3)), mm.group(1)
+                        else:
+                            x, k, op = int(m2.group(2)), w, m2.group(1)
+                        r = {"Lt": x < k, "Le": x <= k, "Gt": x > k, "Ge": x >= k, "Eq": x == k, "Ne": x != k}[op]
                         if r != (v == "True"):
                             feas = False
                 if feas:
